@@ -178,8 +178,8 @@ structure Tok where
   deriving DecidableEq, Repr
 
 /-- One step: the token at the head and the rest.  The guard makes every step consume between one
-    character and the whole input (`lexOne_split`); that it never rejects what `lexLen` accepts is
-    what the differential run would show as a disagreement. -/
+    character and the whole input (`lexOne_split`); it never rejects what `lexLen` accepts
+    (`C01_lex_guard_never_rejects` in Props/C01l). -/
 def lexOne (cs : List Char) : Option (Tok × List Char) :=
   match lexLen cs with
   | some (k, n) => if 0 < n ∧ n ≤ cs.length then some (⟨k, cs.take n⟩, cs.drop n) else none
